@@ -112,9 +112,16 @@ func prctl(option uintptr, args ...uintptr) error {
 // seccomp syscall wrapper.
 func seccomp(op uintptr, flags FilterFlag, uargs unsafe.Pointer) error {
 	verifObserveSeccomp(op, flags, uargs)
-	_, _, e := syscall.Syscall(unix.SYS_SECCOMP, op, uintptr(flags), uintptr(uargs))
+	r1, _, e := syscall.Syscall(unix.SYS_SECCOMP, op, uintptr(flags), uintptr(uargs))
 	if e != 0 {
 		return e
+	}
+	if r1 != 0 && flags&FilterFlagTSync != 0 {
+		// With SECCOMP_FILTER_FLAG_TSYNC the kernel reports a thread that
+		// could not be synchronized by returning its ID. No filter has
+		// been attached in that case.
+		return fmt.Errorf("thread synchronization failed: "+
+			"thread %d is in an incompatible seccomp state", r1)
 	}
 	return nil
 }
